@@ -206,7 +206,21 @@ pub fn run_batch(base_seed: u64, batch: &Batch, workers: usize, deadline: Instan
                         a.interleavings.insert(ih);
                         if a.samples.len() < 3 {
                             if let Some(smp) = mon.sample.clone() {
-                                a.samples.push(json!({"batch": batch.name, "run_index": idx, "case": smp}));
+                                // what one explored case looks like: the run's identity, its non-default
+                                // scheduler / fault decisions (first 20) and what the monitor looked at
+                                let nz: Vec<Value> = out.decisions.iter().filter(|(_, _, v)| *v != 0).take(20).map(|(k, n, v)| json!(format!("{k}={v}/{n}"))).collect();
+                                let nz_total = out.decisions.iter().filter(|(_, _, v)| *v != 0).count();
+                                a.samples.push(json!({
+                                    "batch": batch.name,
+                                    "run_index": idx,
+                                    "run_seed": cfg.seed,
+                                    "history_records": out.hist.len(),
+                                    "scheduler_steps": out.steps,
+                                    "simulated_time_s": out.vt_end / 1_000_000_000,
+                                    "non_default_decisions_total": nz_total,
+                                    "non_default_decisions_first": nz,
+                                    "case": smp,
+                                }));
                             }
                         }
                         if let Some(pi) = &out.panic {
